@@ -642,11 +642,17 @@ class SqfsImage:
                 # an index entry must point at a header: (start, index) = position of a header in the listing
                 at_hdr = any(h["listing_off"] == ix["index"] for h in L["headers"])
                 first = None
+                blk_ok = False
+                straddles = False
                 for h in L["headers"]:
                     if h["listing_off"] == ix["index"]:
                         first = h["entries"][0]["name"] if h["entries"] else None
+                        # readers seek to (start, (listing offset + index) % 8192): start must name the
+                        # metadata block in which the header begins, also when it continues in the next one
+                        blk_ok = ix["start"] == h["at"][0]
+                        straddles = h["at"][1] > 8192 - 12
                 ev.append({"e": "DirIndex", "dir": ino["num"], "points_at_header": at_hdr,
-                           "name_matches": first == ix["name"]})
+                           "name_matches": first == ix["name"], "block_matches": blk_ok, "header_straddles": straddles})
             ev.append({"e": "DirEnd", "dir": ino["num"]})
         ev.append({"e": "IdTable", "count": len(self.ids), "nblocks": len(self.id_locs)})
         if self.exports is not None:
